@@ -23,6 +23,25 @@
 (* Elements are pairs <<producer, seq>>; a producer offers its elements in  *)
 (* increasing seq and never twice (Fresh).  Nil = <<>> is "empty-handed".   *)
 (* cap[k] <= 0 means lane k is unbounded.                                   *)
+(*                                                                          *)
+(* VALUES.  The API takes interface{}: what a caller SEES of an element is  *)
+(* its value Val(e).  An ordinary element is its own value.  The element    *)
+(* universe also has "nothing-like" members <<producer, seq, tag>>: tag 0   *)
+(* is the nil interface value, whose value IS Nil (a caller cannot tell it  *)
+(* from empty-handed by the return value alone; the content still shrinks   *)
+(* by one), tags > 0 are other zero values (typed nil pointer, empty        *)
+(* struct, zero int ...) whose value <<tag>> carries no identity.  The      *)
+(* queue must treat every one of them as an element like any other: it      *)
+(* counts against the capacity, keeps its place, is evicted/refused/cleared *)
+(* through the same paths, and one get removes exactly one element.         *)
+(*                                                                          *)
+(* Named deviation NilSwallowed (what the code does, modelled as it is):    *)
+(* the timed get is a polling loop around the no-wait get that reads        *)
+(* "nil" as "nothing yet".  A poll that draws a nil-valued element has      *)
+(* removed it ("swallowed": it is handed to nobody) and the loop goes on:   *)
+(* the call may swallow further nil-valued elements, return a later         *)
+(* element, or give up empty-handed once its timeout has elapsed.  Only a   *)
+(* timed get swallows and only nil-valued elements (SwallowOnlyNil).        *)
 (***************************************************************************)
 EXTENDS Integers, Sequences, FiniteSets
 
@@ -42,7 +61,7 @@ VARIABLES
   \* ---- history (never read by an action's enabling condition except Fresh)
   offered,      \* every element ever passed to a put
   accepted,     \* accepted[k]: elements that entered lane k, in order
-  removed,      \* removed[k]: <<how, e>> in order of leaving lane k; how \in {"delivered","evicted","cleared"}
+  removed,      \* removed[k]: <<how, e>> in order of leaving lane k; how \in {"delivered","evicted","cleared","swallowed"}
   delivered,    \* delivered[p]: <<k, e>> in the order process p received them
   \* ---- processes
   clock, pc, op, ret, waiting
@@ -52,6 +71,10 @@ pvars == <<clock, pc, op, ret, waiting>>
 vars  == <<dvars, pvars>>
 
 Range(s) == {s[i] : i \in 1..Len(s)}
+
+\* what a caller sees of element e (see VALUES above); Val(Nil) = Nil
+Val(e) == IF Len(e) = 3 THEN (IF e[3] = 0 THEN Nil ELSE <<e[3]>>) ELSE e
+NilValued(e) == Val(e) = Nil
 Second(s) == [i \in 1..Len(s) |-> s[i][2]]
 
 -----------------------------------------------------------------------------
@@ -103,6 +126,14 @@ QTake(p) ==
        /\ removed' = [removed EXCEPT ![k] = Append(@, <<"delivered", Head(q[k])>>)]
        /\ delivered' = [delivered EXCEPT ![p] = Append(@, <<k, Head(q[k])>>)]
   /\ UNCHANGED <<cap, failedLog, overflowLog, offered, accepted>>
+
+\* a poll of a timed get draws a nil-valued element: removed, handed to nobody (NilSwallowed)
+QSwallow(p) ==
+  /\ FrontLane # 0 /\ NilValued(NextOut)
+  /\ LET k == FrontLane IN
+       /\ q' = [q EXCEPT ![k] = Tail(@)]
+       /\ removed' = [removed EXCEPT ![k] = Append(@, <<"swallowed", Head(q[k])>>)]
+  /\ UNCHANGED <<cap, failedLog, overflowLog, offered, accepted, delivered>>
 
 QClear ==
   /\ q' = [k \in Lanes |-> <<>>]
@@ -181,13 +212,15 @@ TakeOrNil(p) ==
 
 GetNoWaitStep(p) == pc[p] = "gnw" /\ TakeOrNil(p) /\ UNCHANGED <<clock, op, waiting>>
 
-\* timed get: one no-wait attempt; on failure sleep a third of the remaining time
+\* timed get: one no-wait attempt; on failure sleep a third of the remaining time.
+\* "Failure" is a nil answer: nothing queued, or a nil-valued element drawn (NilSwallowed)
 GtTry(p) ==
   /\ pc[p] = "gt_try"
-  /\ IF FrontLane = 0
+  /\ IF FrontLane = 0 \/ NilValued(NextOut)
        THEN /\ pc' = [pc EXCEPT ![p] = "gt_sleep"]
             /\ op' = [op EXCEPT ![p].wake = clock + (op[p].t \div 3)]
-            /\ UNCHANGED <<dvars, ret>>
+            /\ IF FrontLane = 0 THEN UNCHANGED dvars ELSE QSwallow(p)
+            /\ UNCHANGED ret
        ELSE /\ QTake(p) /\ Finish(p, NextOut) /\ UNCHANGED op
   /\ UNCHANGED <<clock, waiting>>
 
@@ -223,6 +256,9 @@ ClearedS   == UNION {{r[2] : r \in {x \in Range(removed[k]) : x[1] = "cleared"}}
 FailedS    == {x[2] : x \in Range(failedLog)}
 IsCleared(r) == r[1] = "cleared"
 NCleared   == Len(SelectSeq(removed[1], IsCleared)) + Len(SelectSeq(removed[2], IsCleared))
+SwallowedS == UNION {{r[2] : r \in {x \in Range(removed[k]) : x[1] = "swallowed"}} : k \in Lanes}
+IsSwallowed(r) == r[1] = "swallowed"
+NSwallowed == Len(SelectSeq(removed[1], IsSwallowed)) + Len(SelectSeq(removed[2], IsSwallowed))
 
 RECURSIVE SumLen(_, _)
 SumLen(f, S) == IF S = {} THEN 0 ELSE LET x == CHOOSE x \in S : TRUE IN Len(f[x]) + SumLen(f, S \ {x})
@@ -233,10 +269,14 @@ SumLen(f, S) == IF S = {} THEN 0 ELSE LET x == CHOOSE x \in S : TRUE IN Len(f[x]
 Fifo == \A k \in Lanes : Second(removed[k]) \o q[k] = accepted[k]
 
 \* accepted = delivered (+) evicted (+) cleared (+) still queued, nothing twice
+\* (+ the nil-valued elements a timed get swallowed: deviation NilSwallowed)
 Conservation ==
-  /\ AcceptedS = DeliveredS \cup EvictedS \cup ClearedS \cup QueuedS
+  /\ AcceptedS = DeliveredS \cup EvictedS \cup ClearedS \cup SwallowedS \cup QueuedS
   /\ Len(accepted[1]) + Len(accepted[2]) = Cardinality(AcceptedS)
-  /\ SumLen(delivered, Proc) + Len(overflowLog) + NCleared + Len(q[1]) + Len(q[2]) = Cardinality(AcceptedS)
+  /\ SumLen(delivered, Proc) + Len(overflowLog) + NCleared + NSwallowed + Len(q[1]) + Len(q[2]) = Cardinality(AcceptedS)
+
+\* the deviation is confined: only nil-valued elements are ever swallowed
+SwallowOnlyNil == \A e \in SwallowedS : NilValued(e)
 
 \* a refused element never entered the queue, and every offered element was either refused or accepted
 RefusalInert == /\ FailedS \cap AcceptedS = {}
@@ -280,9 +320,20 @@ ForceEvictsOldestStep ==
 BoundedStep ==
   \A k \in Lanes : Len(q'[k]) > Len(q[k]) => (cap[k] <= 0 \/ Len(q'[k]) <= cap[k])
 
-\* a delivery from lane 2 happens only when lane 1 is empty
+\* a delivery from lane 2 happens only when lane 1 is empty (whatever lane 1 holds:
+\* a nothing-like element at its head is still an element), and so does a swallow
 Q1BeforeQ2Step ==
-  \A p \in Proc : (Len(delivered'[p]) > Len(delivered[p]) /\ delivered'[p][Len(delivered'[p])][1] = 2) => q[1] = <<>>
+  /\ \A p \in Proc : (Len(delivered'[p]) > Len(delivered[p]) /\ delivered'[p][Len(delivered'[p])][1] = 2) => q[1] = <<>>
+  /\ (Len(removed'[2]) > Len(removed[2]) /\ removed'[2][Len(removed'[2])][1] \in {"delivered", "swallowed"}) => q[1] = <<>>
+
+\* elements taken by gets (delivered or swallowed) in this step
+Taken(rm, k) == Len(SelectSeq(rm[k], LAMBDA r : r[1] \in {"delivered", "swallowed"}))
+\* one get step takes exactly one element: the head of the lane it serves
+OneTakeStep ==
+  LET n == Taken(removed', 1) + Taken(removed', 2) - Taken(removed, 1) - Taken(removed, 2) IN
+    /\ n \in {0, 1}
+    /\ n = 1 => /\ Len(q'[1]) + Len(q'[2]) = Len(q[1]) + Len(q[2]) - 1
+                /\ \E k \in Lanes : q[k] # <<>> /\ q'[k] = Tail(q[k])
 
 \* a newly delivered element is younger than everything of its producer already delivered from its lane
 PerProducerOrderStep ==
@@ -299,8 +350,12 @@ TimedGetHonestStep ==
 BlockingGetStep ==
   \A p \in Proc : (pc[p] \in {"get", "gwait"} /\ pc'[p] = "idle") => ret'[p] # Nil
 
-DataStepProps == RefusalInertStep /\ ForceEvictsOldestStep /\ BoundedStep /\ Q1BeforeQ2Step /\ PerProducerOrderStep
-StepProps == DataStepProps /\ TimedGetHonestStep /\ BlockingGetStep
+\* only a timed get's poll swallows (NilSwallowed is confined to GetTimeout)
+SwallowStep ==
+  NSwallowed' > NSwallowed => \E p \in Proc : pc[p] = "gt_try" /\ pc'[p] = "gt_sleep"
+
+DataStepProps == RefusalInertStep /\ ForceEvictsOldestStep /\ BoundedStep /\ Q1BeforeQ2Step /\ PerProducerOrderStep /\ OneTakeStep
+StepProps == DataStepProps /\ TimedGetHonestStep /\ BlockingGetStep /\ SwallowStep
 
 \* liveness half: a consumer is never parked for ever while an element stays available
 NoLostWakeup == \A p \in Proc : ~<>[](pc[p] = "gwait" /\ FrontLane # 0)
